@@ -683,7 +683,10 @@ fn replay_case(case: &Value) -> Value {
         Pkt::Raw(_) => None,
     };
     match via_raw {
-        Some(Err(msg)) => pv(&mut pvs, format!("Panic:into_raw:{}", if rep { "representable" } else { why.as_str() }), format!("into_raw()/try_encode_to_vec panicked: {msg}")),
+        // a panic while converting a model that has no wire form is a (loud) refusal, not a silent
+        // truncation: only representable models must convert without panicking
+        Some(Err(msg)) if rep => pv(&mut pvs, "Panic:into_raw:representable".into(), format!("into_raw()/try_encode_to_vec panicked: {msg}")),
+        Some(Err(_)) => {}
         Some(Ok(Ok(b))) => {
             // (an "unknown" SCMP model with a known type number becomes a legitimate raw packet: not judged here)
             if !rep && why != "scmptype" {
